@@ -235,7 +235,9 @@ func runWatchOnce(c tcase) (out string, clean bool) {
 			}
 		}
 	}()
-	sleepUntil(modelInstant(base, T))
+	// the case ends mid-interval; give the last tick as long as possible (up to 8 ms before the
+	// tick that is no longer part of the case) before stopping the loop
+	sleepUntil(modelInstant(base, T).Add(iv/2 - 8*time.Millisecond))
 	cancel()
 	wg.Wait()
 	close(stop)
@@ -255,18 +257,11 @@ func runWatchOnce(c tcase) (out string, clean bool) {
 		clean = false
 		why = append(why, fmt.Sprintf("probe overslept %v", maxOver))
 	}
-	if peersF != nil {
-		if len(tickTimes) != nTicks {
-			clean = false
-			why = append(why, fmt.Sprintf("%d ticks instead of %d", len(tickTimes), nTicks))
-		}
-		for i, at := range tickTimes {
-			if j, ok := tickOf(at); !ok || j != i+1 {
-				clean = false
-				why = append(why, fmt.Sprintf("tick %d came %v after the start", i+1, at.Sub(base)))
-			}
-		}
-	}
+	// The times at which Watch called peersF are NOT a cleanliness criterion: how often and when the
+	// real loop asks for the peerset is behaviour of the code under test (a Watch that asks once and
+	// reuses the list must show up as wrong alerts, not as an "unclean" run). Machine stalls are
+	// caught by the probe above and by the window test on every alert / forgetting below.
+	_ = tickTimes
 	for _, a := range alerts {
 		n, err := strconv.Atoi(strings.TrimPrefix(a.Name, "m"))
 		p, ok := peerIdx[a.Peer]
@@ -320,13 +315,28 @@ func runWatchOnce(c tcase) (out string, clean bool) {
 	return strings.Join(toks, " "), clean
 }
 
+// watchLine prints a case only when two clean runs gave the same events: a tick that the Go
+// runtime delivered late or dropped while the rest of the process ran on time is invisible to the
+// per-run cleanliness tests (nothing happens, nothing is late), so a single run is never trusted.
 func watchLine(c tcase, st *suiteStats) string {
-	for attempt := 0; attempt < 3; attempt++ {
+	seen := map[string]int{}
+	cleanRuns := 0
+	for attempt := 0; attempt < 6 && cleanRuns < 4; attempt++ {
 		atomic.AddInt64(&st.runs, 1)
-		if res, clean := runWatchOnce(c); clean {
+		res, clean := runWatchOnce(c)
+		if !clean {
+			atomic.AddInt64(&st.unclean, 1)
+			continue
+		}
+		cleanRuns++
+		seen[res]++
+		if seen[res] == 2 {
+			if len(seen) > 1 {
+				// two runs agreed but a third differed: timing is not trustworthy for this case
+				break
+			}
 			return c.input() + " => " + res
 		}
-		atomic.AddInt64(&st.unclean, 1)
 	}
 	atomic.AddInt64(&st.inconclusive, 1)
 	return "# inconclusive watch " + c.input()
